@@ -363,7 +363,11 @@ class Gen:
             okcols = [c for c in range(gs.cols) if srcv[(0, c)] >= gs.vmin]
             if okcols:
                 col = rng.choice(okcols)
-        if gd.trough:
+        if self.cfg.get("dist_dups") and rng.random() < 0.3:
+            # destinations with repeats / several virtual rows of one trough column (positions may coincide)
+            ids = gd.all_ids()
+            dflat = [rng.choice(ids) for _ in range(rng.randint(2, 6))]
+        elif gd.trough:
             cols = rng.sample(range(gd.cols), rng.randint(1, gd.cols))
             dflat = [well_id(rng.randrange(gd.idrows), c) for c in cols]
         else:
@@ -382,11 +386,10 @@ class Gen:
         cs = view.volumes(si)
         cd = view.volumes(di)
         src_h = max(cs[(0, col)] - gs.vmin, 0.0)
-        if di == si:
-            # the source column may also be a destination: budget conservatively
-            dst_h = min(max(gd.vmax - cd[w], 0.0) for w in dw)
-        else:
-            dst_h = min(max(gd.vmax - cd[w], 0.0) for w in dw)
+        cnt = {}
+        for w in dw:
+            cnt[w] = cnt.get(w, 0) + 1
+        dst_h = min(max(gd.vmax - cd[w], 0.0) / cnt[w] for w in dw)
         h = min(src_h / n, dst_h, self.wl_max)
         v = snap_down(self.typical(h) * (0.9999 if self.regime != "quarter" else 1.0), self.regime) if h > 0 else 0.0
         if rng.random() < 0.03:
